@@ -8,6 +8,7 @@ from ..core import Phase, Result
 from .. import grammar as G
 from .. import refsolver
 from .. import solvecheck as SC
+from ..represent import Rep, with_rep
 from ..util import attempt
 
 import fsic
@@ -181,7 +182,8 @@ def check_natural(case):
     m = M(range(n), **{k: np.array(v) for k, v in init.items()})
     m.check = list(case.get('check') or ['Y', 'Z'])
     opts = dict(case['opts'])
-    got = attempt(m.solve_t, 1, **opts)
+    rep = Rep(case.get('rep'))
+    got = attempt(m.solve_t, rep.int(1), **rep.opts(opts))
     st = SC.ref_state(init, n)
     want = refsolver.solve_t(st, 1, n, check=list(case.get('check') or ['Y', 'Z']), endogenous=ref.endogenous,
                              evaluate=SC.ref_program_evaluate(ref, list(range(n))), **opts)
@@ -212,6 +214,6 @@ def gen_natural(bound):
 def phases(tier):
     quick = tier == 'quick'
     return [
-        Phase('fault-placements', check_fault, gen=gen_faults(3 if quick else 6), exhaustive=True),
-        Phase('natural-faults', check_natural, gen=gen_natural(2 if quick else 6), exhaustive=True),
+        Phase('fault-placements', check_fault, gen=with_rep(gen_faults(3 if quick else 6)), exhaustive=True),
+        Phase('natural-faults', check_natural, gen=with_rep(gen_natural(2 if quick else 6)), exhaustive=True),
     ]
